@@ -30,13 +30,36 @@ def gen_case(rng, idx, tier):
     spec = D.gen_lp(rng, tier, ints=False, outcome='optimal', front='ro',
                     many_rows=bool(rng.random() < 0.25))
     spec['solver'] = ['def', 'def', 'grb', 'eco'][int(rng.integers(4))]
+    # the last group of rows is added after a first solve (and after a first round of dual()
+    # reads); the duals are judged after the second solve
+    spec['two_stage'] = bool(len(spec['lin']) >= 2 and rng.random() < 0.3)
     return spec
 
 
 def run_case(spec, ctx):
     sname = spec['solver']
     try:
-        B = D.build(spec)
+        if spec.get('two_stage'):
+            first = dict(spec)
+            first['lin'] = spec['lin'][:-1]
+            B = D.build(first)
+            C.solve(B.model, sname)
+            for cobj in list(getattr(B, 'lin_constr', [])) + \
+                    [c_ for _, _, c_ in getattr(B, 'bound_constr', [])]:
+                try:
+                    cobj.dual()
+                except Exception:
+                    pass
+            l_ = spec['lin'][-1]
+            lhs_ = B.mat(l_['A'])
+            b_ = np.array(l_['b'], float)
+            c_new = (lhs_ <= b_) if l_['sense'] == 'le' else (lhs_ >= b_) \
+                if l_['sense'] == 'ge' else (lhs_ == b_)
+            B.model.st(c_new)
+            B.lin_constr = list(getattr(B, 'lin_constr', [])) + [c_new]
+            ctx.count('rows_added_after_first_solve')
+        else:
+            B = D.build(spec)
         C.solve(B.model, sname)
     except Exception as e:
         ctx.count('rsome_raises:' + type(e).__name__)
@@ -139,7 +162,8 @@ def run_case(spec, ctx):
         if abs(dobj + o['k'] - val) > 20 * tol * (1 + abs(val)) * scale:
             detail.append({'what': 'dual-weighted right-hand sides do not sum to the optimum',
                            'dual_objective': dobj + o['k'], 'optimum': float(val)})
-    feats = {'senses': sorted({l['sense'] for l in spec['lin']}),
+    feats = {'two_stage': bool(spec.get('two_stage')),
+             'senses': sorted({l['sense'] for l in spec['lin']}),
              'patterns': sorted({b['pattern'] for b in spec['bounds']}),
              'styles': sorted({b['style'] for b in spec['bounds']}),
              'sense': o['sense'], 'solver': sname}
